@@ -212,13 +212,13 @@ PROPS = {
                    '(the reference semantics is total), reorder_perm, must_cache_or_fail, nil function rejected; every stage of the Bind model is total by '
                    'construction (structural recursion or explicit fuel); Coq, no axioms. Tied to /repo by comparing bind-ok/bind-error, panics, hangs and '
                    '"variables untouched on error" on malformed and ordinary chains. Fuel: C04_flow_checks_never_out_of_fuel, C04_eliminate_unused_fuel_suffices, '
-                   'C04_keep_closure_fuel_suffices (selection loops, unconditional) and C04_reorder_sort_fuel_suffices + C04_reorder_runs_that_sort (the topological '
-                   'sort of Reorder: whenever the computable potential bound reorder_fuel_ok holds the sort ends with empty queues and more fuel gives the same run; '
-                   'the bound is evaluated on every generated case - WF 4 in the model output would report a case where it fails, none does - because it is not '
-                   'unconditional: a provider with hundreds of results of one type would exhaust the model\'s fuel).',
+                   'C04_keep_closure_fuel_suffices (selection loops) and C04_reorder_sort_fuel_suffices + C04_reorder_runs_that_sort (the topological '
+                   'sort of Reorder: the fuel the model gives it is the potential of its start state - queued entries plus, per node, one step and one per '
+                   'before-edge and per produced / received type - and with it the sort ends with empty queues and more fuel gives the same run), all '
+                   'unconditional: the fuelled loops of the model are the unfuelled loops of the Go code.',
         level_note=CHAIN_NOTE + ' Panics inside reflect/runtime on exotic values are exercised, not proved; defects D13 D14 D19 D22-D25 were repaired in /repo.',
         design_ref='DESIGN.md section 8 (C04)',
-        assumptions=['fuel of the selection loops is proved sufficient (FuelProofs.v); for the topological sort of Reorder it is proved sufficient under the computable bound reorder_fuel_ok (TopoFuel.v), which is evaluated on every generated case'],
+        assumptions=['fuel of the selection loops is proved sufficient (FuelProofs.v); and for the topological sort of Reorder (TopoFuel.v), unconditionally'],
     ),
     'C05': dict(
         monitor=True,
@@ -522,8 +522,8 @@ PROPS = {
                    'C20_curry_args_typed / C20_curry_curried_distinct / C20_curry_pass_order (every parameter of the original function gets a value of its type, '
                    'the injected one or the k-th argument of that type), C20_saveto, C20_struct_plan_paths + C20_fill_spec (for any tags and post-actions the inputs '
                    'are stored at pairwise independent existing places, each lands at its field, nothing else changes) and C20_struct_plan_plain (untagged structs: '
-                   'exactly the exported fields, recursively, in declaration order), C20_post_action_field_parameter / C20_post_action_without_field_parameter (the parameter of a '
-                   'post-action function that stands for the field is the first one of the field\'s type or a pointer to it; none means no match); all lists, shapes and depths; Coq, no axioms. The models of utils.go and filler.go '
+                   'exactly the exported fields, recursively, in declaration order), C20_post_action_field_parameter / C20_post_action_without_field_parameter / C20_post_action_uses_field_parameter (the parameter of a '
+                   'post-action function that stands for the field is the first one of the field\'s type or a pointer to it; none means no match; the struct plan records the action with that parameter\'s address-of flag); all lists, shapes and depths; Coq, no axioms. The models of utils.go and filler.go '
                    'are tied to /repo by the curry, saveto and filler streams; post-action order and the tag rules are part of the model and validated by the stream, '
                    'their specification beyond the plain case is the model itself.',
         level_note=CHAIN_NOTE + ' WithMethodCall, FillExisting, MatchToOpenInterface and field/function type conversion in post-actions are not exercised.',
